@@ -28,6 +28,29 @@
 (* name, present or absent, and for the count.  A second mode ("fields")     *)
 (* starts from one long table that sweeps every entry field.                 *)
 (*                                                                         *)
+(* Mode "mach": the same writer over small tables, with e_machine drawn     *)
+(* from Machines.  gABI ch.4/5: the symbol entry layout is fixed by         *)
+(* EI_CLASS, and the hash table is an array of Elf32_Word / Elf64_Word -    *)
+(* 32-bit objects in both classes; ch.4 "Data Representation": no layout of *)
+(* these sections depends on e_machine.  So the section bytes and the view  *)
+(* are the same for every machine (MachineNeutral).  Two 64-bit psABIs are  *)
+(* known to deviate (Alpha, s390x: binutils writes 8-byte hash words        *)
+(* there); ELFCLASS64 with EM_ALPHA / EM_S390 is therefore outside the      *)
+(* writer's alphabet (HashWordUnspecified) - nothing is asserted for it.    *)
+(* ELFCLASS32 with those machines is inside: 4-byte words certainly apply.  *)
+(*                                                                         *)
+(* Mode "multi": one file with several symbol tables (gABI: at most one     *)
+(* SHT_SYMTAB and one SHT_DYNSYM; Solaris adds SHT_SUNW_LDYNSYM), each with *)
+(* its own string table, built one after the other (AddSymbol, NextTable).  *)
+(* gABI ch.4 "Section names are conventions": an object file may have more  *)
+(* than one section with the same name, and names may be blank (sh_name of  *)
+(* a NUL) - naming in {"own", "same", "blank"}.  A table is identified by   *)
+(* its section header, never by its name: the view of every table           *)
+(* (entries, ByName) is that table's own, whatever was asked of the other   *)
+(* tables of the file before (MultiWellFormed; the query schedules Scheds   *)
+(* interleave the tables in four orders, the driver walks each schedule on  *)
+(* one ELFFile).                                                            *)
+(*                                                                         *)
 (* TLC checks on the specification itself, for every table in the bounds    *)
 (* and every query name: LookupSound, LookupComplete, GnuFindsFirst,        *)
 (* CountExact, CountDetermined, NoFault / ChainInBounds / ChainProgress     *)
@@ -41,7 +64,12 @@
 (* name, by the operational byte comparison and by the declarative C-string  *)
 (* reading), SymRoundTrip (decoding the entry bytes at index * sh_entsize    *)
 (* gives the abstract entry back, ST_INFO(bind, type) recomposes st_info,    *)
-(* the companion word is 0 off SHN_XINDEX, ByName partitions the indices).   *)
+(* the companion word is 0 off SHN_XINDEX, ByName partitions the indices),   *)
+(* MachInAlphabet / MachineNeutral (e_machine stays where the gABI's 32-bit  *)
+(* hash words certainly apply and changes two bytes of the file header and   *)
+(* nothing else), MultiWellFormed (several tables in one file: disjoint      *)
+(* sections, own string tables, names as the naming scheme says, every       *)
+(* table's by-name scan of its own bytes = its own ByName).                  *)
 (*                                                                         *)
 (* Every hashed table is emitted (spec-selected subset, see Selected) with  *)
 (* its ELF image (Elf!Chunks) and the declarative view: entries in index    *)
@@ -77,10 +105,16 @@ CONSTANTS Modes,         \* subset of {"lookup", "fields"}
           NBuckets,      \* nbucket (SysV) = nbuckets (GNU)
           Blooms,        \* <<bloom size in words, shift>> pairs
           FieldN,        \* symbols after the null entry (fields mode)
-          EmitMod, AlwaysLen   \* emission: every table of <= AlwaysLen entries, of the longer ones one in EmitMod
+          EmitMod, AlwaysLen,  \* emission: every table of <= AlwaysLen entries, of the longer ones one in EmitMod
+          Machines,      \* e_machine codes (mach mode)
+          SmallIds,      \* name ids of the mach and multi modes
+          SmallSyms,     \* symbols after the null entry per table (mach and multi modes)
+          MultiTabs,     \* symbol tables per file (multi mode): 2..3
+          MultiCls       \* <<class, little endian>> pairs of the multi mode
 
-VARIABLES mode, cf, tab, phase, hp, mem, rd
-vars == <<mode, cf, tab, phase, hp, mem, rd>>
+\* `more`: the symbol tables of the file that are already complete (multi mode; <<>> otherwise); `tab` is the one being built
+VARIABLES mode, cf, tab, more, phase, hp, mem, rd
+vars == <<mode, cf, tab, more, phase, hp, mem, rd>>
 
 (* ------------------------------- names --------------------------------- *)
 NameSeq == TLCEval(<< <<>>,                                    \* 1  ""
@@ -104,6 +138,8 @@ Sym(nm, value, size, info, other, shndx, xs, bt, fl) ==
 NullSym == Sym(1, Z, Z, 0, 0, 0, Z, 1, 0)          \* gABI: entry 0 is all zero; syminfo entry 0: SYMINFO_CURRENT
 \* lookup mode: the value is the serial number of the symbol (stays with it when the table is sorted)
 LSym(id, k) == Sym(id, N(k), N(Len(NameSeq[id])), 16 + (k % 3), k % 4, k, Z, 0, 0)
+\* multi mode: the value also tells the table (t = number of tables before this one)
+MSym(id, k, t) == [LSym(id, k) EXCEPT !.value = N(k + 16 * t)]
 
 Vals(c) == IF c = 32 THEN <<Z, N(1), N(4096), W(<<0, 0, 0, 128>>), W(<<255, 255, 255, 255>>)>>
            ELSE <<Z, N(1), W(<<0, 0, 0, 128, 0, 0, 0, 0>>), W(<<255, 255, 255, 255, 255, 255, 255, 255>>),
@@ -210,7 +246,24 @@ BloomsTiny == {<<1, 5>>}
 BloomsQuick == {<<1, 0>>, <<2, 5>>, <<1, 31>>, <<2, 31>>}
 BloomsFull == {<<1, 0>>, <<2, 0>>, <<1, 5>>, <<2, 5>>, <<3, 6>>, <<1, 31>>, <<2, 31>>}
 ClsLe == {<<32, TRUE>>, <<32, FALSE>>, <<64, TRUE>>, <<64, FALSE>>}
-Cf(cl, kind, extra, sf) == [cls |-> cl[1], le |-> cl[2], kind |-> kind, extra |-> extra, strfirst |-> sf]
+ClsLeTwo == {<<32, FALSE>>, <<64, TRUE>>}
+\* e_machine: codes of the gABI's e_machine table (EM_386 3, EM_X86_64 62 by default)
+DefMach(c) == IF c = 64 THEN 62 ELSE 3
+EM_S390 == 22
+EM_ALPHA == 41
+EM_ALPHA_OLD == 36902                   \* 0x9026, the unofficial code binutils still accepts
+EM_S390_OLD == 41872                    \* 0xa390, likewise
+\* gABI: hash words are 32 bits wide in both classes; the 64-bit Alpha and s390x psABIs use 64-bit words instead
+\* (binutils elf64-alpha.c, elf64-s390.c).  Which of the two a reader should apply there is not judged.
+HashWordUnspecified(c, m) == c = 64 /\ m \in {EM_S390, EM_ALPHA, EM_ALPHA_OLD, EM_S390_OLD}
+MachFor(c) == {m \in Machines : ~HashWordUnspecified(c, m) /\ m # DefMach(c)}
+MachinesQuick == {0, 2, 8, 20, 21, 22, 40, 41, 36902, 62, 183, 243}
+MachinesFull == {0, 2, 3, 4, 8, 15, 20, 21, 22, 40, 41, 42, 43, 50, 62, 183, 243, 258, 36902, 41872, 4660}
+Cf(cl, kind, extra, sf) == [cls |-> cl[1], le |-> cl[2], kind |-> kind, extra |-> extra, strfirst |-> sf, mach |-> DefMach(cl[1]),
+                            naming |-> "own"]
+\* mach mode: <<nbucket(s), symoffset, bloom size, shift>>
+MachParams == {<<1, 1, 1, 5>>, <<2, 1, 2, 0>>, <<3, 2, 1, 31>>}
+Namings == {"own", "same", "blank"}
 NoHp == [nb |-> 0, so |-> 0, bs |-> 0, sh |-> 0]
 NoMem == [g |-> <<>>, v |-> <<>>, sym |-> <<>>, str |-> <<>>, ent |-> 0]
 Idle == [kind |-> "idle", q |-> 0, st |-> RS("idle", 0, -1, FALSE, 0)]
@@ -222,16 +275,28 @@ FieldParams == {<<7, 1, 2, 6>>, <<16, (FieldN * 3) \div 4, 1, 31>>}
 
 Init ==
   /\ mode \in Modes
-  /\ phase = "symbols" /\ hp = NoHp /\ mem = NoMem /\ rd = Idle
+  /\ phase = "symbols" /\ hp = NoHp /\ mem = NoMem /\ rd = Idle /\ more = <<>>
   /\ CASE mode = "lookup" -> \E cl \in ClsLe : cf = Cf(cl, "dynsym", 0, FALSE) /\ tab = <<NullSym>>
        [] mode = "fields" -> \/ \E c \in FieldCfs : cf = c /\ tab = FieldsTab(c.cls)
                              \/ \E cl \in ClsLe : cf = Cf(cl, "symtab", 0, FALSE) /\ tab = <<>>      \* the empty table
+       [] mode = "mach" -> \E cl \in ClsLe : \E m \in MachFor(cl[1]) :
+                             cf = [Cf(cl, "dynsym", 0, FALSE) EXCEPT !.mach = m] /\ tab = <<NullSym>>
+       [] mode = "multi" -> \E cl \in MultiCls, nm \in Namings :
+                             cf = [Cf(cl, "symtab", 0, FALSE) EXCEPT !.naming = nm] /\ tab = <<NullSym>>
 
 \* the last position of the longest tables takes its name from LastIds (a configuration may bound it more tightly)
+Growing == mode \in {"lookup", "mach", "multi"}
+SymBound == IF mode = "lookup" THEN MaxSyms ELSE SmallSyms
 AddSymbol(id) ==
-  /\ phase = "symbols" /\ mode = "lookup" /\ Len(tab) <= MaxSyms
-  /\ (Len(tab) = MaxSyms => id \in LastIds)
-  /\ tab' = Append(tab, LSym(id, Len(tab)))
+  /\ phase = "symbols" /\ Growing /\ Len(tab) <= SymBound
+  /\ (mode = "lookup" /\ Len(tab) = MaxSyms => id \in LastIds)
+  /\ id \in (IF mode = "lookup" THEN NameIds ELSE SmallIds)
+  /\ tab' = Append(tab, IF mode = "multi" THEN MSym(id, Len(tab), Len(more)) ELSE LSym(id, Len(tab)))
+  /\ UNCHANGED <<mode, cf, more, phase, hp, mem, rd>>
+\* multi mode: the table is complete, the file gets a further symbol table
+NextTable ==
+  /\ phase = "symbols" /\ mode = "multi" /\ Len(more) + 1 < MultiTabs
+  /\ more' = Append(more, tab) /\ tab' = <<NullSym>>
   /\ UNCHANGED <<mode, cf, phase, hp, mem, rd>>
 
 Serialise(t, v) == [g |-> <<>>, v |-> v, sym |-> EncSyms(t, cf.cls, cf.le, cf.extra), str |-> StrBytes(t), ent |-> EntSize(cf.cls, cf.extra)]
@@ -244,20 +309,20 @@ Sort(nb, so) ==
      /\ mem' = Serialise(t, EncSysV(BuildSysV(t, nb, so), cf.le))
   /\ hp' = [nb |-> nb, so |-> so, bs |-> 0, sh |-> 0]
   /\ phase' = "sorted"
-  /\ UNCHANGED <<mode, cf, rd>>
+  /\ UNCHANGED <<mode, cf, more, rd>>
 \* choose the bloom filter geometry: the GNU table is built
 BuildGnuTable(bs, sh) ==
   /\ phase = "sorted" /\ rd.kind = "idle"
   /\ mem' = [mem EXCEPT !.g = EncGnu(BuildGnu(tab, hp.nb, hp.so, bs, sh, cf.cls), cf.cls, cf.le)]
   /\ hp' = [hp EXCEPT !.bs = bs, !.sh = sh]
   /\ phase' = "hashed"
-  /\ UNCHANGED <<mode, cf, tab, rd>>
-\* tables that carry no hash section: the empty table and the Solaris auxiliary table
+  /\ UNCHANGED <<mode, cf, tab, more, rd>>
+\* tables that carry no hash section: the empty table, the Solaris auxiliary table, the tables of a file with several
 FinishPlain ==
-  /\ phase = "symbols" /\ (Len(tab) = 0 \/ cf.kind = "ldynsym")
+  /\ phase = "symbols" /\ (Len(tab) = 0 \/ cf.kind = "ldynsym" \/ (mode = "multi" /\ more # <<>>))
   /\ mem' = Serialise(tab, <<>>)
   /\ phase' = "plain"
-  /\ UNCHANGED <<mode, cf, tab, hp, rd>>
+  /\ UNCHANGED <<mode, cf, tab, more, hp, rd>>
 
 (* ------------------------------- readers ------------------------------- *)
 \* the SysV readers run on the sorted table, the GNU readers once the GNU table exists
@@ -265,7 +330,7 @@ MG == [cls |-> cf.cls, le |-> cf.le, h |-> mem.g, sym |-> mem.sym, str |-> mem.s
 MV == [cls |-> cf.cls, le |-> cf.le, h |-> mem.v, sym |-> mem.sym, str |-> mem.str, ent |-> mem.ent]
 ReadyV == phase = "sorted" /\ rd.kind = "idle"
 ReadyG == phase = "hashed" /\ rd.kind = "idle"
-Keep == UNCHANGED <<mode, cf, tab, phase, hp, mem>>
+Keep == UNCHANGED <<mode, cf, tab, more, phase, hp, mem>>
 At(kind, pc) == rd.kind = kind /\ rd.st.pc = pc
 
 StartGnu(k) == ReadyG /\ rd' = [kind |-> "gnu", q |-> k, st |-> GnuStart] /\ Keep
@@ -286,15 +351,20 @@ GnuCountWalk == At("gnucount", "walk") /\ GnuCountAdvance
 SysVCountRead == ReadyV /\ rd' = [kind |-> "sysvcount", q |-> 0, st |-> RS("done", 0, SysVCount(MV), TRUE, 0)] /\ Keep
 
 Next ==
-  \/ \E id \in NameIds : AddSymbol(id)
+  \/ \E id \in NameIds \cup SmallIds : AddSymbol(id)
   \/ (mode = "lookup" /\ \E nb \in NBuckets, so \in 1..(MaxSyms + 1) : Sort(nb, so))
   \/ (mode = "lookup" /\ \E b \in Blooms : BuildGnuTable(b[1], b[2]))
   \/ (mode = "fields" /\ \E p \in FieldParams : Sort(p[1], p[2]))
   \/ (mode = "fields" /\ \E p \in FieldParams : p[1] = hp.nb /\ BuildGnuTable(p[3], p[4]))
+  \/ (mode = "mach" /\ \E p \in MachParams : Sort(p[1], p[2]))
+  \/ (mode = "mach" /\ \E p \in MachParams : p[1] = hp.nb /\ p[2] = hp.so /\ BuildGnuTable(p[3], p[4]))
+  \/ NextTable
   \/ FinishPlain
-  \/ \E k \in AllIds : StartGnu(k) \/ StartSysV(k)
+  \* (the reader machines take no e_machine input - MG, MV: the mach mode does not run them again action by action;
+  \* its expectations come from the operator forms, which RunAgrees ties to the actions in the other modes)
+  \/ (mode # "mach" /\ \E k \in AllIds : StartGnu(k) \/ StartSysV(k))
   \/ GnuBloomTest \/ GnuBucket \/ GnuChainStep \/ SysVBucket \/ SysVChainStep
-  \/ StartGnuCount \/ GnuCountMax \/ GnuCountWalk \/ SysVCountRead
+  \/ (mode # "mach" /\ (StartGnuCount \/ SysVCountRead)) \/ GnuCountMax \/ GnuCountWalk
 Spec == Init /\ [][Next]_vars
 
 (* ---------------------------- declarative view ------------------------- *)
@@ -342,12 +412,13 @@ HasInfo == mode = "fields" /\ N0 > 0 /\ cf.kind # "ldynsym"
 UIdx(k) == IF cf.strfirst THEN k + 1 ELSE k
 B2N(b) == IF b THEN 1 ELSE 0
 \* user sections in order: symbol table, string table, then whichever of .hash, .gnu.hash, .symtab_shndx, .SUNW_syminfo exist
-Ix == [sym |-> UIdx(1), str |-> UIdx(2),
+Ix == [sym |-> IF mode = "multi" THEN UIdx(2 * (Len(more) + 1) - 1) ELSE UIdx(1),
+       str |-> IF mode = "multi" THEN UIdx(2 * (Len(more) + 1)) ELSE UIdx(2),
        hash |-> IF HasHash THEN UIdx(3) ELSE -1,
        gnu |-> IF HasHash THEN UIdx(4) ELSE -1,
        shndx |-> IF HasShndx THEN UIdx(3 + 2 * B2N(HasHash)) ELSE -1,
        info |-> IF HasInfo THEN UIdx(4 + 2 * B2N(HasHash)) ELSE -1]
-Image ==
+SingleImage ==
   LET c == cf.cls
       symname == CASE cf.kind = "dynsym" -> DotDynsym [] cf.kind = "symtab" -> DotSymtab [] OTHER -> DotLdynsym
       symtype == CASE cf.kind = "dynsym" -> Sht("SHT_DYNSYM") [] cf.kind = "symtab" -> Sht("SHT_SYMTAB") [] OTHER -> Sht("SHT_SUNW_LDYNSYM")
@@ -359,16 +430,55 @@ Image ==
       xsec == Sec(DotShndx, Sht("SHT_SYMTAB_SHNDX"), Z, Z, xb, N(Len(xb)), N(Ix.sym), Z, N(4), N(4))
       ib == EncSyminfo(tab, cf.le)
       isec == Sec(DotSyminfo, Sht("SHT_SUNW_syminfo"), N(2), Z, ib, N(Len(ib)), N(Ix.sym), Z, N(2), N(4))
-  IN [Im0 EXCEPT !.cls = c, !.le = cf.le, !.machine = IF c = 64 THEN 62 ELSE 3, !.strfirst = cf.strfirst,
+  IN [Im0 EXCEPT !.cls = c, !.le = cf.le, !.machine = cf.mach, !.strfirst = cf.strfirst,
                  !.secs = <<symsec, strsec>> \o (IF HasHash THEN <<hsec, gsec>> ELSE <<>>)
                           \o (IF HasShndx THEN <<xsec>> ELSE <<>>) \o (IF HasInfo THEN <<isec>> ELSE <<>>)]
+
+\* multi mode: table t is user sections 2t-1 (symbols) and 2t (its string table); kinds in the order SHT_SYMTAB, SHT_DYNSYM,
+\* SHT_SUNW_LDYNSYM (one section of each type); the names follow cf.naming
+AllTabs == more \o <<tab>>
+NTabs == Len(AllTabs)
+SymIx(t) == UIdx(2 * t - 1)
+StrIx(t) == UIdx(2 * t)
+TabKind(t) == <<"symtab", "dynsym", "ldynsym">>[t]
+SymSecName(t) == CASE cf.naming = "blank" -> <<>>
+                   [] cf.naming = "same" -> DotSymtab
+                   [] OTHER -> <<DotSymtab, DotDynsym, DotLdynsym>>[t]
+StrSecName(t) == CASE cf.naming = "blank" -> <<>>
+                   [] cf.naming = "same" -> DotStrtab
+                   [] OTHER -> <<DotStrtab, DotDynstr, DotDynstr>>[t]
+TabMem(t) == [cls |-> cf.cls, le |-> cf.le, h |-> <<>>, sym |-> EncSyms(AllTabs[t], cf.cls, cf.le, cf.extra), str |-> StrBytes(AllTabs[t]),
+              ent |-> EntSize(cf.cls, cf.extra)]
+MultiImage ==
+  LET c == cf.cls
+      SymType(t) == Sht(<<"SHT_SYMTAB", "SHT_DYNSYM", "SHT_SUNW_LDYNSYM">>[t])
+      Pair(t) == LET m == TabMem(t) IN
+                 << Sec(SymSecName(t), SymType(t), N(2), Z, m.sym, N(Len(m.sym)), N(StrIx(t)), N(1), N(c \div 8), N(m.ent)),
+                    Sec(StrSecName(t), Sht("SHT_STRTAB"), N(2), Z, m.str, N(Len(m.str)), Z, Z, N(1), Z) >>
+  IN [Im0 EXCEPT !.cls = c, !.le = cf.le, !.machine = cf.mach, !.strfirst = cf.strfirst,
+                 !.secs = CatAll([t \in 1..NTabs |-> Pair(t)], NTabs)]
+Image == IF mode = "multi" THEN MultiImage ELSE SingleImage
+\* the view of table t of a file with several: entries in index order and, per name, the indices bearing it - a function of
+\* that table alone
+TabSymView(t, i) == LET x == AllTabs[t][i + 1] IN <<x.nm, x.value, x.size, x.info \div 16, x.info % 16, x.other, x.shndx, x.xs>>
+TabByName(t, k) == {i \in 0..(Len(AllTabs[t]) - 1) : AllTabs[t][i + 1].nm = k}
+TabView(t) == [sym |-> SymIx(t), str |-> StrIx(t), kind |-> TabKind(t),
+               syms |-> [i \in 1..Len(AllTabs[t]) |-> TabSymView(t, i - 1)],
+               byname |-> [k \in AllIds |-> TabByName(t, k)]]
+\* query schedules over (table, name id): table-major, name-major, and both reversed.  The answer to every query of every
+\* schedule is TabByName(t, k): it does not depend on the position in the schedule.
+TableMajor == CatAll([t \in 1..NTabs |-> [k \in AllIds |-> <<t, k>>]], NTabs)
+NameMajor == CatAll([k \in AllIds |-> [t \in 1..NTabs |-> <<t, k>>]], Len(NameSeq))
+\* (fresh: the reader fetches the section object anew for every query instead of keeping one per table)
+Sched(fresh, q) == [fresh |-> fresh, q |-> q]
+Scheds == <<Sched(FALSE, TableMajor), Sched(TRUE, NameMajor), Sched(TRUE, Rev(TableMajor)), Sched(FALSE, Rev(NameMajor))>>
 
 (* ------------------------------ emission ------------------------------- *)
 \* a spec-computed mixing number decides which of the longer tables are replayed against the code
 Mix == LET RECURSIVE S(_)
            S(i) == IF i = 0 THEN 0 ELSE (S(i - 1) * 7 + tab[i].nm) % 1000003
        IN S(N0) * 31 + hp.nb * 5 + hp.so * 3 + hp.bs * 11 + hp.sh + (IF cf.cls = 64 THEN 2 ELSE 0) + (IF cf.le THEN 1 ELSE 0)
-Selected == mode = "fields" \/ N0 <= AlwaysLen \/ Mix % EmitMod = 0
+Selected == mode \in {"fields", "mach", "multi"} \/ N0 <= AlwaysLen \/ Mix % EmitMod = 0
 Finished == phase \in {"hashed", "plain"} /\ rd.kind = "idle"
 Serialised == phase \in {"sorted", "plain"} /\ rd.kind = "idle"
 Case == [mode |-> mode, cls |-> cf.cls, le |-> cf.le, kind |-> cf.kind, ent |-> mem.ent, chunks |-> Chunks(Image), ix |-> Ix,
@@ -376,7 +486,9 @@ Case == [mode |-> mode, cls |-> cf.cls, le |-> cf.le, kind |-> cf.kind, ent |-> 
          info |-> IF HasInfo THEN [i \in 1..(N0 - 1) |-> InfoView(i)] ELSE <<>>,
          byname |-> [k \in AllIds |-> ByName(k)],
          look |-> IF HasHash THEN [k \in AllIds |-> LookView(k)] ELSE <<>>,
-         count |-> N0, hp |-> hp]
+         count |-> N0, hp |-> hp, mach |-> cf.mach, naming |-> cf.naming,
+         tabs |-> IF mode = "multi" THEN [t \in 1..NTabs |-> TabView(t)] ELSE <<>>,
+         sched |-> IF mode = "multi" THEN Scheds ELSE <<>>]
 Emit == /\ (Finished /\ Selected => CSVWrite("%1$s", <<ToJson(Case)>>, IOEnv.OUT))
         \* the name tables, once per mode (at one initial state)
         /\ (phase = "symbols" /\ cf.cls = 32 /\ cf.le /\ ((mode = "lookup" /\ N0 = 1) \/ (mode = "fields" /\ N0 = 0)) =>
@@ -407,6 +519,38 @@ ChainProgress == [][/\ (At("gnu", "chain") /\ rd'.st.pc = "chain" => rd'.st.idx 
 RunAgrees == /\ (Answered("gnu") => rd.st = GnuLookup(MG, NameSeq[rd.q]))
              /\ (Answered("sysv") => rd.st = SysVLookup(MV, NameSeq[rd.q]))
              /\ (Answered("gnucount") => rd.st = GnuCount(MG))
+
+\* e_machine: the writer stays inside the combinations where the gABI's 32-bit hash words certainly apply, and the machine
+\* changes nothing but the e_machine field of the file (offset 18, 2 bytes): sections, headers and the view are those of the
+\* default machine
+MachInAlphabet == ~HashWordUnspecified(cf.cls, cf.mach)
+MachineNeutral ==
+  mode = "mach" /\ Finished =>
+    LET a == Chunks(Image)
+        b == Chunks([Image EXCEPT !.machine = DefMach(cf.cls)])
+        ha == a[1][2]   hb == b[1][2] IN
+    /\ Len(a) = Len(b) /\ \A i \in 2..Len(a) : a[i] = b[i]
+    /\ a[1][1] = 0 /\ b[1][1] = 0 /\ Len(ha) = Len(hb)
+    /\ \A j \in 1..Len(ha) : j \notin {19, 20} => ha[j] = hb[j]
+    /\ <<ha[19], ha[20]>> = Fix(N(cf.mach), 2, cf.le) /\ <<ha[19], ha[20]>> # <<hb[19], hb[20]>>
+\* a file with several symbol tables: the sections do not overlap, every table links its own string table, the section
+\* names are as the naming scheme says (distinct / all equal / all blank), and scanning table t's own bytes for a name
+\* (entry by entry, through its own string table) gives exactly TabByName(t, name) - whatever the other tables hold
+MultiWellFormed ==
+  mode = "multi" /\ phase = "plain" =>
+    LET im == Image
+        nm == TLCEval([k \in 1..Len(im.secs) |-> NameAt(im, NameOff(im, k))]) IN
+    /\ NTabs >= 2 /\ NTabs <= MultiTabs /\ Len(im.secs) = 2 * NTabs
+    /\ ChunksDisjoint(im)
+    /\ \A t \in 1..NTabs : im.secs[2 * t - 1].link = N(StrIx(t)) /\ UserIndex(im, 2 * t) = StrIx(t) /\ UserIndex(im, 2 * t - 1) = SymIx(t)
+    /\ \A t, u \in 1..NTabs : t # u => (nm[2 * t - 1] = nm[2 * u - 1] <=> cf.naming # "own")
+    /\ (cf.naming = "blank" => \A k \in 1..Len(im.secs) : nm[k] = <<>>)
+    /\ \A t \in 1..NTabs :
+         LET m == TabMem(t) IN
+         /\ NSyms(m) = Len(AllTabs[t]) /\ m.sym = im.secs[2 * t - 1].data /\ m.str = im.secs[2 * t].data
+         /\ \A k \in AllIds : {i \in 0..(NSyms(m) - 1) : NameIs(m, i, NameSeq[k])} = TabByName(t, k)
+    /\ \A s \in 1..Len(Scheds) : Len(Scheds[s].q) = NTabs * Len(NameSeq)
+                                   /\ {Scheds[s].q[j] : j \in 1..Len(Scheds[s].q)} = (1..NTabs) \X AllIds
 
 \* structure of the built tables (evaluated once per table)
 \* the indices on the SysV chain that starts at index i
